@@ -27,7 +27,7 @@ fn close(a: f64, b: f64) -> bool { (a - b).abs() <= 1e-6 * a.abs().max(b.abs()).
 // C09
 
 const AGG9: [&str; 9] = ["sum(income)", "avg(age)", "count(age)", "count(*)", "sum(age)", "avg(income)", "variance(income)", "stddev(age)", "count(DISTINCT city)"];
-const OAGG9: [&str; 5] = ["sum(amount)", "avg(qty)", "count(qty)", "count(*)", "avg(amount)"];
+const OAGG9: [&str; 8] = ["sum(amount)", "avg(qty)", "count(qty)", "count(*)", "avg(amount)", "sum(bal)", "avg(bal)", "sum(bal)"];
 
 pub fn gen_c09(rng: &mut Rng, _k: usize, _tier: &str) -> J {
     let from_orders = rng.chance(1, 3);
@@ -42,7 +42,9 @@ pub fn gen_c09(rng: &mut Rng, _k: usize, _tier: &str) -> J {
     let where_ = if rng.chance(1, 3) { if from_orders { " WHERE qty > 2" } else if joined { " WHERE users.age > 30" } else { " WHERE age > 30" } } else { "" };
     let mut items: Vec<String> = keys.iter().enumerate().map(|(i, c)| format!("{c} AS k{i}")).collect(); items.extend(aggs);
     let sql = format!("SELECT {} FROM {from}{where_}{}", items.join(", "), if keys.is_empty() { String::new() } else { format!(" GROUP BY {}", keys.join(", ")) });
-    json!({"sql": sql, "nkeys": keys.len(), "data_seed": rng.next() % 100000, "n_users": rng.range(3, 40), "max_orders": rng.range(0, 4),
+    let max_orders = rng.range(0, 4);
+    json!({"sql": sql, "nkeys": keys.len(), "data_seed": rng.next() % 100000, "n_users": rng.range(3, 40), "max_orders": max_orders,
+           "mult": if rng.chance(1, 2) { 1000.0 } else { (max_orders.max(1)) as f64 },
            "eps": *rng.pick(&[0.5, 1.0, 5.0]), "delta": *rng.pick(&[1e-3, 1e-6])})
 }
 
@@ -57,7 +59,10 @@ pub fn eval_c09(case: &J) -> Outcome {
     let rels = world();
     let rel = match parse_rel(sql) { Ok(r) => r, Err(e) => { out.tag("trivial"); out.tag("parse-fail"); let _ = e; return out; } };
     // clipping inactive: multiplicity bound far above what any unit contributes
-    let p = DpParameters::new(case["eps"].as_f64().unwrap(), case["delta"].as_f64().unwrap(), 0.5, 1000.0, 1.0, 5);
+    // the allowed multiplicity of a privacy unit: large, or just what the data needs (at most `max_orders` rows per unit), so that a
+    // clipping bound which is too small by a factor (a wrong absolute bound of a column) does clip
+    let mult = case["mult"].as_f64().unwrap_or(1000.0);
+    let p = DpParameters::new(case["eps"].as_f64().unwrap(), case["delta"].as_f64().unwrap(), 0.5, mult, 1.0, 5);
     let dp = match guarded(|| rel.rewrite_with_differential_privacy(&rels, None, privacy_unit(), p.clone())) {
         Ok(Ok(d)) => d, Ok(Err(_)) => { out.tag("trivial"); out.tag("dp-err"); return out; }
         Err((loc, msg)) => { out.tag("trivial"); out.fail(&format!("C18/c09/rewrite-panic/{}", site(&loc, &msg)), format!("{sql}: {msg}")); return out; }
@@ -176,8 +181,12 @@ pub fn eval_c01(case: &J) -> Outcome {
             let keyof = |r: &Vec<Cell>| keyidx.iter().map(|i| r[*i].key()).collect::<Vec<_>>().join("|");
             let m0: BTreeMap<String, Vec<Cell>> = r0.1.iter().map(|r| (keyof(r), r.clone())).collect();
             let m1: BTreeMap<String, Vec<Cell>> = r1.1.iter().map(|r| (keyof(r), r.clone())).collect();
-            for (cname, _sigma, c) in cols {
-                let Some(c) = c else { out.tag("unmatched-site"); continue };
+            for (cname, sigma, c) in cols {
+                // when the clipping constant cannot be read off the expressions (the shape of the clipping sub-query changed), fall back on
+                // C = σ / (largest noise multiplier recorded in the returned event): the smallest C the accounting can be claiming
+                let fallback = || -> Option<f64> { let ms: Vec<f64> = crate::s_dp::gaussians(dp.dp_event()); let m = ms.iter().cloned().fold(0.0, f64::max); if m > 0.0 && *sigma > 0.0 { Some(*sigma / m) } else { None } };
+                let c = match c { Some(c) => *c, None => match fallback() { Some(c) => { out.tag("clip-constant-from-event"); c } None => { out.fail("C01/exec/clip-constant-not-found", format!("{sql}: the noised column `{cname}` (σ = {sigma}) has no recognisable clipping constant and the event records no multiplier for it")); continue } } };
+                let c = &c;
                 let ci = names.iter().position(|n| n == cname).unwrap();
                 let mut d2 = 0.0;
                 let allkeys: std::collections::BTreeSet<&String> = m0.keys().chain(m1.keys()).collect();
@@ -381,7 +390,10 @@ pub fn eval_limit(case: &J) -> Outcome {
 
 pub fn gen_c04(rng: &mut Rng, _k: usize, _tier: &str) -> J {
     // grouped by a private-valued key (thresholded), optionally with a public-valued one
-    let (sql, keycols) = match rng.below(5) {
+    let (sql, keycols) = match rng.below(7) {
+        // keys whose values are public (listed by the column type): every listed value is released, whatever the data
+        5 => ("SELECT city AS k0, count(id) AS c, sum(income) AS s FROM users GROUP BY city".to_string(), vec!["city"]),
+        6 => ("SELECT city AS k0, avg(age) AS c FROM users WHERE city IN ('A', 'B') GROUP BY city".to_string(), vec!["city"]),
         0 => ("SELECT age AS k0, count(id) AS c FROM users GROUP BY age".to_string(), vec!["age"]),
         1 => ("SELECT qty AS k0, sum(amount) AS c FROM orders GROUP BY qty".to_string(), vec!["qty"]),
         2 => ("SELECT city AS k0, age AS k1, count(id) AS c FROM users GROUP BY city, age".to_string(), vec!["city", "age"]),
@@ -404,6 +416,20 @@ pub fn eval_c04(case: &J) -> Outcome {
         Err((loc, msg)) => { out.tag("trivial"); out.fail(&format!("C18/c04/rewrite-panic/{}", site(&loc, &msg)), format!("{sql}: {msg}")); return out; }
     };
     let facts = ir::facts(dp.relation());
+    if facts.taus.is_empty() && case["keys"][0] == "city" && case["keys"].as_array().unwrap().len() == 1 {
+        // public keys: the released key column must not be computed from the protected rows — on any database, in particular on one
+        // where a listed value has no row (small n_users) or a single one, the output holds exactly the listed values
+        out.tag("public-keys");
+        let data = data_of(case);
+        let db = data.load(RandomMode::Const(0.25));
+        let res = match db.run(dp.relation()) { Ok(x) => x, Err(e) => { out.fail("C17/sqlite/dp-not-executable", format!("{sql}: {e}")); return out; } };
+        let mut got: Vec<String> = res.1.iter().map(|r| r[0].key()).collect(); got.sort(); got.dedup();
+        let want: Vec<String> = if sql.contains("IN ('A', 'B')") { vec!["'A'".into(), "'B'".into()] } else { vec!["'A'".into(), "'B'".into(), "'C'".into()] };
+        let present: std::collections::BTreeSet<String> = data.users.iter().map(|u| u[2].key()).collect();
+        if present.len() < 3 { out.tag("some-public-value-absent-from-data"); }
+        if got != want { out.fail("C02/exec/public-keys-depend-on-data", format!("{sql}: the grouping column lists the public values {:?}, the data holds {:?}, the DP result releases {:?}: which keys are released depends on the protected rows without any noise", want, present, got)); }
+        return out;
+    }
     if facts.taus.is_empty() { out.tag("trivial"); out.tag("no-threshold"); return out; }
     // the threshold and the count noise must be at least what the (ε, δ) share reserved for key release requires
     let (e_t, d_t, kf) = (eps * share, delta * share, kk as f64);
